@@ -505,14 +505,14 @@ CHECKS = {
     "C18": {
         "procs": 8,
         "rule": "built with -race. The client talks to the server through the harness proxy, which can answer chosen methods with a JSON-RPC error "
-                "('unknown method' = what a server lacking the method says). TestC18Enumerated enumerates completely 27 ways an API call can fail "
-                "(Monitor with option errors / no tables / unknown table / unsupported method / cancelled context / not connected / refused by the "
+                "('unknown method' = what a server lacking the method says). TestC18Enumerated enumerates completely 28 ways an API call can fail "
+                "(Monitor with option errors / a conditional table whose condition cannot be converted / no tables / unknown table / unsupported method / cancelled context / not connected / refused by the "
                 "server / monitor_cond_since unknown and the monitor_cond fallback refused / both unknown and the monitor fallback refused / no monitor "
                 "method known / a table that is already monitored / a notification the cache cannot apply arriving before the monitor reply; Transact answered with an RPC error, failing validation, on an unknown table, with "
                 "an expired context, not connected, rejected by the server; MonitorCancel refused; MonitorCancel with a notification the cache cannot apply in flight; Echo answered with such a notification and the connection lost 0-3 ms later (two reasons to tear the connection down at once); Echo against a mute server; Get miss; List with a "
                 "wrong or non-pointer type; Where without models; Create of a foreign model) x 9 follow-up calls (Disconnect+Connect, "
                 "Close+Connect, Monitor, Transact, Get, Echo, List, and Get/List with context.Background(): a cache read on an idle connected client "
-                "must not need a deadline to return) x monitor present or not = 486 combinations: every call returns within "
+                "must not need a deadline to return) x monitor present or not = 504 combinations: every call returns within "
                 "20 s (bounded contexts allow 2 s) and an epilogue Close, Connect, Echo, Monitor, Get of a seeded row succeeds. TestC18Concurrent: 2-4 "
                 "goroutines run drawn lists of 4-14 calls (Get, List, Where.List, WhereCache.List, Cache().Rows, Transact, Monitor, MonitorCancel, "
                 "Echo, Disconnect, Connect, Close) on one client, with and without reconnect, while a writer commits transactions that keep "
